@@ -58,16 +58,21 @@ if not ok_without:
     print(out_without[-1500:])
 confirmed = base_ok and (not ok_with) and ok_without
 meta["confirmed"] = confirmed
-# run checks against /repo
+# run the checks against the changed tree WITHOUT touching /repo: a scratch copy of /verif whose
+# harness crates depend on the scratch worktree instead of /repo (so that long runs that use /repo
+# are not disturbed); the registered commands themselves always build from /repo
 results = {}
-rc, out = run(["git", "-C", "/repo", "status", "--porcelain"])
-if out.strip():
-    print("/repo is dirty, refusing"); sys.exit(4)
-rc, out = run(["git", "-C", "/repo", "apply", patch])
+EV = "/tmp/wt/eval-verif"
+os.makedirs(EV, exist_ok=True)
+run(f"rsync -a --delete --exclude .cache --exclude .git --exclude evidence --exclude replays /verif/ {EV}/")
+run(f"sed -i 's#path = \"/repo\"#path = \"{WT}\"#' {EV}/engine/Cargo.toml {EV}/engine-sr/Cargo.toml")
+run(["git", "apply", patch], cwd=WT)
+ENV.pop("VERIF_EVIDENCE_DIR", None)
+ENV.pop("VERIF_REPLAYS_DIR", None)
 try:
     for p in [prop] + extra:
         t0 = time.time()
-        rc, out = run(["./check", p, "quick"], cwd="/verif", timeout=7200)
+        rc, out = run(["./check", p, "quick"], cwd=EV, timeout=7200)
         viol = [l for l in out.split("\n") if l.startswith("VIOLATION") or l.startswith("  ") and "VIOLATION" not in l and l.strip()]
         msg = ""
         lines = out.split("\n")
@@ -79,9 +84,7 @@ try:
         results[p] = {"exit": rc, "message": msg, "machinery": mach, "wall_s": round(time.time() - t0, 1)}
         print(f"check {p}: exit {rc} {msg[:160]} {mach[:1]}")
 finally:
-    run(["git", "-C", "/repo", "checkout", "--", "."])
-    rc, out = run(["git", "-C", "/repo", "status", "--porcelain"])
-    assert not out.strip(), "repo not clean after undo: " + out
+    run("git checkout -q -- .", cwd=WT)
 meta["checks"] = results
 meta["detected_by"] = [p for p, r in results.items() if r["exit"] == 1]
 dst = os.path.join("/verif/seeded", name)
